@@ -146,11 +146,16 @@ def axis_values(n: int, kind: str, origin: float) -> np.ndarray:
         values = (origin + 0.5 * np.arange(n))[::-1].copy()
     elif kind == 'descnonuni':
         values = (origin + np.concatenate([[0.0], np.cumsum(GAPS[:max(0, n - 1)])])[:n])[::-1].copy()
-    elif kind == 'nearuni':
-        # uniform up to a perturbation of the last value that is far below any sensible tolerance
+    elif kind in ('nearuni', 'nearuni-tiny'):
+        # uniform up to a perturbation of the last value that passes the usual closeness tests: 2^-20 is within
+        # numpy's default relative tolerance (1e-5 of the spacing 0.5), 2^-30 within its absolute one (1e-8)
         values = origin + 0.5 * np.arange(n)
         if n > 2:
-            values[-1] += 2.0 ** -17
+            values[-1] += 2.0 ** -20 if kind == 'nearuni' else 2.0 ** -30
+    elif kind == 'tenths':
+        # decimal fractions that are not binary fractions, on an axis that crosses zero off-centre (-0.05 | 0.25 | ...):
+        # sums and halves of neighbouring values round
+        values = np.array([origin - int(origin) - 0.05 + 0.3 * k for k in range(n)]) + int(origin)
     elif kind in ('int', 'intdesc'):
         # whole-degree coordinates stored as integers (midpoints fall on x.5)
         values = (int(origin) + np.arange(n)).astype('int32')
@@ -184,9 +189,10 @@ def stored_bounds(values: np.ndarray, mode: str) -> np.ndarray:
     n = len(values)
     values = np.asarray(values, dtype='float64')
     out = np.empty((n, 2))
-    if mode in ('gapped', 'overlap'):
+    if mode in ('gapped', 'overlap', 'hairline'):
         # 'overlap': cells wider than the spacing, neighbouring cells overlap in a strip
-        half = 0.125 if mode == 'gapped' else 0.3125
+        # 'hairline': gaps of 2^-21 between cells, far below a relative tolerance at longitudes beyond 100
+        half = {'gapped': 0.125, 'overlap': 0.3125, 'hairline': 0.25 - 2.0 ** -22}[mode]
         direction = 1.0 if n < 2 or values[1] > values[0] else -1.0
         out[:, 0] = values - direction * half
         out[:, 1] = values + direction * half
@@ -227,6 +233,11 @@ def build_cf1d(spec: dict) -> tuple[xr.Dataset, Truth]:
 
     lat_values = axis_values(ny, lat_kind, spec.get('lat0', -2.0))
     lon_values = axis_values(nx, lon_kind, spec.get('lon0', 10.0))
+    if 'dx' in spec:
+        # wide cells: grids that go round the globe, or coordinates in projected units
+        lon_values = spec.get('lon0', 10.0) + axis_values(nx, lon_kind, 0.0) * (spec['dx'] / 0.5)
+    if 'dy' in spec:
+        lat_values = spec.get('lat0', -2.0) + axis_values(ny, lat_kind, 0.0) * (spec['dy'] / 0.5)
     lat = xr.DataArray(lat_values, dims=[y_dim], name=lat_name, attrs={
         'standard_name': 'latitude', 'units': 'degrees_north', 'long_name': 'Latitude'})
     lon = xr.DataArray(lon_values, dims=[x_dim], name=lon_name, attrs={
@@ -243,8 +254,8 @@ def build_cf1d(spec: dict) -> tuple[xr.Dataset, Truth]:
     lon_mode = spec.get('bounds_lon', bounds)
 
     def bounds_for(values, mode, coordinate, name, dim):
-        if mode in ('var', 'coord', 'gapped', 'overlap'):
-            b = stored_bounds(values, mode if mode in ('gapped', 'overlap') else 'contig')
+        if mode in ('var', 'coord', 'gapped', 'overlap', 'hairline'):
+            b = stored_bounds(values, mode if mode in ('gapped', 'overlap', 'hairline') else 'contig')
             if spec.get('signed_zero'):
                 # neighbouring cells write their common edge at zero with opposite signs
                 b = b.copy()
@@ -285,7 +296,7 @@ def build_cf1d(spec: dict) -> tuple[xr.Dataset, Truth]:
     truth = Truth(
         hole_points=[], bowtie=None,
         family='cf1d', convention='CFGrid1D', kinds=kinds, default_kind='face', vars=truths,
-        polygons=polygons, polygon_compare='equals', centres=centres, centre_mode='stored',
+        polygons=polygons, polygon_compare='close' if 'tenths' in (lat_kind, lon_kind) else 'equals', centres=centres, centre_mode='stored',
         shift=shift, time_dim='time', depth_dim='depth', time_name='time', depth_names=['depth'],
         geometry_names=[lon_name, lat_name] + [n for n in ('lon_bnds', 'lat_bnds') if n in extra_vars],
         sizes=sizes, defined=(lat_b is not None and lon_b is not None),
@@ -791,11 +802,11 @@ def build_ugrid(spec: dict) -> tuple[xr.Dataset, Truth]:
 
     add_table('Mesh2_face_nodes', 'face_node_connectivity', stored_faces, FACE_DIM, width, MAXN_DIM)
     if 'edge_node' in supplied:
-        add_table('Mesh2_edge_nodes', 'edge_node_connectivity', tables['edge_node'], EDGE_DIM, 2, TWO_DIM)
+        add_table('Mesh2_edge_nodes', 'edge_node_connectivity', tables['edge_node'], EDGE_DIM, 2, spec.get('two_dim', TWO_DIM))
     if 'face_edge' in supplied:
         add_table('Mesh2_face_edges', 'face_edge_connectivity', tables['face_edge'], FACE_DIM, width, MAXN_DIM)
     if 'edge_face' in supplied:
-        add_table('Mesh2_edge_faces', 'edge_face_connectivity', tables['edge_face'], EDGE_DIM, 2, TWO_DIM)
+        add_table('Mesh2_edge_faces', 'edge_face_connectivity', tables['edge_face'], EDGE_DIM, 2, spec.get('two_dim', TWO_DIM))
     if 'face_face' in supplied:
         add_table('Mesh2_face_links', 'face_face_connectivity', tables['face_face'], FACE_DIM, width, MAXN_DIM)
 
@@ -811,6 +822,13 @@ def build_ugrid(spec: dict) -> tuple[xr.Dataset, Truth]:
         variables['Mesh2_face_x'] = xr.DataArray(fx, dims=[FACE_DIM], attrs={'long_name': 'face x', 'units': 'degrees_east'})
         variables['Mesh2_face_y'] = xr.DataArray(fy, dims=[FACE_DIM], attrs={'long_name': 'face y', 'units': 'degrees_north'})
         mesh_attrs['face_coordinates'] = 'Mesh2_face_x Mesh2_face_y'
+        if spec.get('face_bounds'):
+            # the optional bounds of the face coordinates (UGRID conventions, "Mesh2_face_xbnds")
+            for axis, name in ((0, 'Mesh2_face_xbnds'), (1, 'Mesh2_face_ybnds')):
+                rows = [[nodes[n][axis] for n in f] + [np.nan] * (width - len(f)) for f in faces]
+                variables[name] = xr.DataArray(np.array(rows), dims=[FACE_DIM, MAXN_DIM], attrs={'long_name': f'bounds of the face centres, axis {axis}'})
+            variables['Mesh2_face_x'].attrs['bounds'] = 'Mesh2_face_xbnds'
+            variables['Mesh2_face_y'].attrs['bounds'] = 'Mesh2_face_ybnds'
 
     variables['Mesh2'] = xr.DataArray(np.int32(0), name='Mesh2', attrs=mesh_attrs)
     if spec.get('second_mesh'):
@@ -885,6 +903,13 @@ def build(spec: dict) -> tuple[xr.Dataset, Truth]:
                 ds[name].encoding.update(encoding)
                 if was_coord:
                     ds = ds.set_coords(name)
+    if spec.get('pack_coords'):
+        # coordinates packed as scaled integers on disk, missing values as the integer fill value
+        for name in truth.geometry_names:
+            if name in ds.variables and ds[name].dtype.kind == 'f':
+                ds[name].encoding.update({'dtype': 'int32', 'scale_factor': 2.0 ** -12, 'add_offset': 0.0, '_FillValue': -2 ** 31})
+    if spec.get('decoy'):
+        ds = add_decoy(ds, truth)
     if spec.get('declare_reversed'):
         # Declare the dimensions of every grid in the opposite order to the convention's: a first
         # variable carries them reversed, so dataset.sizes / dataset.dims list e.g. x before y.
@@ -901,13 +926,49 @@ def build(spec: dict) -> tuple[xr.Dataset, Truth]:
         for name in ds.variables:
             reordered[name].encoding.update(ds[name].encoding)
         ds = reordered
+    if spec.get('explicit_names'):
+        # the convention constructed by hand with its coordinates named, and bound, before anything else happens
+        get_convention(ds, truth, spec)
+        truth['bound_explicitly'] = True
+    if spec.get('history'):
+        ds = apply_history(ds, truth, spec['history'])
     return ds, truth
+
+
+def add_decoy(ds: xr.Dataset, truth) -> xr.Dataset:
+    """Another pair of latitude / longitude variables (a staggered grid of another shape) listed before
+    the real ones: what autodetection finds first.  Only meaningful with 'explicit_names'."""
+    family = truth['family']
+    lat, lon = ds[truth['lat_name']], ds[truth['lon_name']]
+    lat_attrs = {'units': 'degrees_north', 'standard_name': 'latitude', 'long_name': 'latitude at u points', 'axis': 'Y'}
+    lon_attrs = {'units': 'degrees_east', 'standard_name': 'longitude', 'long_name': 'longitude at u points', 'axis': 'X'}
+    if family == 'cf1d':
+        ny, nx = lat.size, lon.size
+        first = {
+            'lat_u': xr.DataArray(-60.0 + 0.25 * np.arange(ny + 1), dims=['y_u'], attrs=lat_attrs),
+            'lon_u': xr.DataArray(40.0 + 0.25 * np.arange(nx + 2), dims=['x_u'], attrs=lon_attrs),
+        }
+    else:
+        ny, nx = lat.shape
+        jj, ii = np.meshgrid(np.arange(ny + 1), np.arange(nx + 2), indexing='ij')
+        first = {
+            'lat_u': xr.DataArray(-60.0 + 0.25 * jj + 0.0625 * ii, dims=['j_u', 'i_u'], attrs=lat_attrs),
+            'lon_u': xr.DataArray(40.0 + 0.25 * ii, dims=['j_u', 'i_u'], attrs=lon_attrs),
+        }
+    first['u_decoy'] = xr.DataArray(np.zeros(first['lat_u'].shape if family != 'cf1d' else (first['lat_u'].size, first['lon_u'].size)),
+                                    dims=(first['lat_u'].dims if family != 'cf1d' else ('y_u', 'x_u')), attrs={'long_name': 'on the other grid'})
+    coords = [str(c) for c in ds.coords]
+    out = xr.Dataset({**first, **{name: ds[name].variable for name in ds.variables}}, attrs=ds.attrs)
+    out = out.set_coords([c for c in coords if c in out.variables])
+    for name in ds.variables:
+        out[name].encoding.update(ds[name].encoding)
+    return out
 
 
 def get_convention(ds: xr.Dataset, truth: Truth, spec: dict):
     """The convention object for a case: autodetected through the accessor, or -- with 'explicit_names' --
     constructed by hand through the documented keyword path and bound."""
-    if not spec.get('explicit_names'):
+    if not spec.get('explicit_names') or truth.get('bound_explicitly'):
         return ds.ems
     family = truth['family']
     if family in ('cf1d', 'cf2d'):
@@ -949,6 +1010,103 @@ def grid_kind_object(truth: Truth, kind: str):
         return ArakawaCGridKind(kind)
     from emsarray.conventions.ugrid import UGridKind
     return UGridKind(kind)
+
+
+# ----------------------------------------------------------------------------------- histories
+#
+# What had already happened to a dataset (and to the convention object bound to it) before the
+# call under test.  None of these operations changes what the dataset describes, so the reference
+# answers (Truth) are those of the freshly built dataset.
+
+HISTORY_OPS = ('warm', 'copy', 'deepcopy', 'pickle', 'reopen', 'chunk')
+
+
+def warm(ds: xr.Dataset, truth) -> None:
+    """Use the convention bound to `ds` the way an earlier part of a program would have:
+    every cached property and every kind of operation once, results discarded."""
+    import warnings
+    convention = ds.ems
+    centre = None
+    calls = [
+        lambda: convention.polygons, lambda: convention.mask, lambda: convention.strtree,
+        lambda: convention.bounds, lambda: convention.geometry, lambda: convention.face_centres,
+        lambda: convention.grid_kinds, lambda: convention.default_grid_kind, lambda: convention.grid_size,
+        lambda: convention.depth_coordinates, lambda: convention.time_coordinate,
+        lambda: convention.get_all_geometry_names(),
+        lambda: convention.get_index_for_point(centre),
+        lambda: convention.select_point(centre),
+        lambda: convention.select_index(convention.wind_index(0)),
+        lambda: convention.ravel(ds['botz']),
+        lambda: convention.make_clip_mask(next(p for p in convention.polygons if p is not None), buffer=1),
+        lambda: convention.ocean_floor(),
+        lambda: convention.normalize_depth_variables(positive_down=False, deep_to_shallow=True),
+        lambda: convention.drop_geometry(),
+        lambda: convention.select_variables(['botz']),
+        lambda: convention.make_poly_collection(),
+    ]
+    try:
+        centre = next(p for p in convention.polygons if p is not None).representative_point()
+    except Exception:  # noqa: BLE001
+        centre = None
+    with warnings.catch_warnings():
+        warnings.simplefilter('ignore')
+        for call in calls:
+            try:
+                call()
+            except Exception:  # noqa: BLE001  (a defect here is for the check that owns the operation to report)
+                pass
+
+
+def apply_history(ds: xr.Dataset, truth, ops) -> xr.Dataset:
+    import pickle
+    for op in ops:
+        if op == 'warm':
+            warm(ds, truth)
+        elif op == 'copy':
+            ds = ds.copy()
+        elif op == 'deepcopy':
+            ds = ds.copy(deep=True)
+        elif op == 'pickle':
+            ds = pickle.loads(pickle.dumps(ds))
+        elif op == 'reopen':
+            with env_scratch() as tmp:
+                with reopen(ds, tmp, 'history.nc') as opened:
+                    ds = opened.load()
+        elif op == 'chunk':
+            # every variable lazily loaded, as after open_mfdataset: coordinates too
+            ds = ds.chunk()
+        else:
+            raise ValueError(op)
+    return ds
+
+
+def env_scratch():
+    from . import env
+    return env.scratch_dir()
+
+
+def history_specs(tier: str) -> list[dict]:
+    """One dataset per family under every history of length 1 (quick) / <= 2 (thorough)."""
+    import itertools
+    bases = [
+        {'family': 'cf1d', 'ny': 2, 'nx': 3, 'bounds': 'var'},
+        {'family': 'cf2d', 'ny': 3, 'nx': 2, 'geometry': 'skew', 'bounds': 'stored', 'holes': 'first'},
+        {'family': 'shoc_simple', 'ny': 2, 'nx': 2, 'geometry': 'rect', 'bounds': 'stored'},
+        {'family': 'shoc_standard', 'nj': 2, 'ni': 3, 'dry': 'corner'},
+        {'family': 'ugrid', 'mesh': 'M6', 'supplied': ['face_face'], 'fill': 'fillattr', 'start_index': 1},
+        # conventions constructed by hand for coordinates that autodetection would not have chosen
+        {'family': 'cf1d', 'ny': 2, 'nx': 3, 'bounds': 'var', 'decoy': True, 'explicit_names': True},
+        {'family': 'cf2d', 'ny': 2, 'nx': 3, 'geometry': 'skew', 'bounds': 'stored', 'decoy': True, 'explicit_names': True},
+    ]
+    if tier == 'quick':
+        histories = [[op] for op in HISTORY_OPS] + [['warm', 'copy'], ['reopen', 'warm'], ['chunk', 'warm']]
+    else:
+        histories = [[op] for op in HISTORY_OPS] + [list(h) for h in itertools.product(HISTORY_OPS, repeat=2)]
+    # a convention bound by hand stays with its dataset object (and travels in its pickle); datasets derived
+    # from it are detected afresh, so only histories that keep the object apply
+    keeps_binding = (['warm'], ['pickle'], ['warm', 'pickle'], ['pickle', 'warm'], ['pickle', 'pickle'], ['warm', 'warm'])
+    return [dict(base, history=h) for base in bases for h in histories
+            if not base.get('explicit_names') or h in [list(k) for k in keeps_binding]]
 
 
 def reopen(ds: xr.Dataset, directory: str, name: str = 'input.nc', **kwargs) -> xr.Dataset:
@@ -1000,6 +1158,10 @@ def family_specs(tier: str, *, holes: bool = True, big: bool = True) -> list[dic
     specs.append({'family': 'cf2d', 'ny': 2, 'nx': 3, 'geometry': 'skew', 'lon0': 179.5, 'lat0': -70.0})
     specs.append({'family': 'shoc_standard', 'nj': 2, 'ni': 3, 'lon0': -180.5, 'lat0': 10.0})
     specs.append({'family': 'ugrid', 'mesh': 'M4', 'lon0': 179.0, 'lat0': -45.0})
+    # a grid that goes round the globe in 0..360 style with its first cell across Greenwich; cells wider than half a turn
+    specs.append({'family': 'cf1d', 'ny': 2, 'nx': 6, 'lon0': 5.0, 'dx': 60.0, 'lat0': -15.0, 'dy': 30.0})
+    specs.append({'family': 'cf1d', 'ny': 2, 'nx': 6, 'lon0': -175.0, 'dx': 60.0, 'lat0': -15.0, 'dy': 30.0, 'bounds': 'var'})
+    specs.append({'family': 'cf1d', 'ny': 2, 'nx': 2, 'lon0': -100.0, 'dx': 200.0, 'lat0': -40.0, 'dy': 80.0})
     if not quick:
         specs.append({'family': 'cf1d', 'ny': 3, 'nx': 3, 'lon0': 358.5, 'lat0': -89.0, 'lon_kind': 'nonuni'})
         specs.append({'family': 'shoc_simple', 'ny': 2, 'nx': 2, 'lon0': -0.5, 'lat0': -0.5})
@@ -1018,6 +1180,7 @@ def family_specs(tier: str, *, holes: bool = True, big: bool = True) -> list[dic
                   'start_index_by_table': {'face_face': 0, 'edge_node': 0}, 'omit_zero_start_index': True})
     specs.append({'family': 'ugrid', 'mesh': 'M7', 'supplied': ['edge_node', 'edge_face'], 'edge_face_missing_first': True, 'fill': 'fillattr'})
     specs.append({'family': 'ugrid', 'mesh': 'M4', 'second_mesh': True})
+    specs.append({'family': 'ugrid', 'mesh': 'M1', 'supplied': ['edge_node', 'edge_face'], 'two_dim': 'nv', 'start_index': 1})
     # column-major arrays, coordinates listing their dimensions in different orders, ragged node masks
     specs.append({'family': 'shoc_standard', 'nj': 3, 'ni': 3, 'fortran': True, 'dry': 'farcorner'})
     specs.append({'family': 'cf2d', 'ny': 3, 'nx': 4, 'geometry': 'skew', 'fortran': True, 'holes': 'first'})
@@ -1028,6 +1191,7 @@ def family_specs(tier: str, *, holes: bool = True, big: bool = True) -> list[dic
     specs.append({'family': 'cf1d', 'ny': 3, 'nx': 3, 'bounds_lat': 'gapped', 'bounds_lon': 'none'})
     specs.append({'family': 'cf1d', 'ny': 3, 'nx': 4, 'bounds_lat': 'none', 'bounds_lon': 'var', 'lon_kind': 'nonuni'})
     specs.append({'family': 'cf1d', 'ny': 3, 'nx': 4, 'lat_kind': 'nearuni', 'lon_kind': 'nearuni'})
+    specs.append({'family': 'cf1d', 'ny': 4, 'nx': 3, 'lat_kind': 'nearuni-tiny', 'lon_kind': 'nearuni-tiny'})
     specs.append({'family': 'cf1d', 'ny': 3, 'nx': 3, 'lat0': -0.125, 'lon0': -0.125, 'bounds': 'var', 'signed_zero': True})
     for mesh in []:
         specs.append({'family': 'ugrid', 'mesh': mesh, 'supplied': ['edge_node', 'face_edge'],
@@ -1035,11 +1199,13 @@ def family_specs(tier: str, *, holes: bool = True, big: bool = True) -> list[dic
         if not quick:
             specs.append({'family': 'ugrid', 'mesh': mesh, 'supplied': list(OPTIONAL_TABLES),
                           'transposed': True, 'coords_as': 'coord'})
+    # datasets (and the convention bound to them) that have already been used, copied, pickled, saved, chunked
+    specs.extend(history_specs(tier))
     # drop duplicates, keep order
     seen = set()
     unique = []
     for s in specs:
-        key = repr(sorted(s.items()))
+        key = repr(sorted((k, repr(v)) for k, v in s.items()))
         if key not in seen:
             seen.add(key)
             unique.append(s)
